@@ -107,6 +107,7 @@ func (this *Hnsw) Insert(id uuid.UUID, value math.Vector, metadata Metadata, ver
 		}
 		entrypoint = (*hnswVertex)(atomic.LoadPointer(&this.entrypoint))
 	}
+	verifYield("insert.epLoaded", id)
 	minDistance := this.space.Distance(vertex.vector, entrypoint.vector)
 	for l := entrypoint.level; l > vertex.level; l-- {
 		entrypoint, minDistance = this.greedyClosestNeighbor(vertex.vector, entrypoint, minDistance, l)
@@ -187,6 +188,7 @@ func (this *Hnsw) Remove(id uuid.UUID) error {
 
 	verifYield("remove.unstored", id)
 	this.handOverEntrypoint(vertex)
+	verifYield("remove.handedOver", id)
 
 	for l := vertex.level; l >= 0; l-- {
 		mMax := this.config.mMax
@@ -217,6 +219,7 @@ func (this *Hnsw) Search(ctx context.Context, query math.Vector, k uint) (Search
 	if entrypoint == nil {
 		return make(SearchResult, 0), nil
 	}
+	verifYield("search.epLoaded", uuid.Nil)
 
 	minDistance := this.space.Distance(query, entrypoint.vector)
 	for l := entrypoint.level; l > 0; l-- {
